@@ -1120,6 +1120,10 @@ class Interp:
                         newsub[gn] = self.ty_s(ctx, ga["t"])
                     elif "c" in ga and ga["c"] is not None:
                         newsub[gn] = str(ga["c"])
+            if p in ("core::ops::function::Fn::call", "core::ops::function::FnMut::call_mut", "core::ops::function::FnOnce::call_once") \
+                    and "{closure#" in target["key"] and len(args) == 2 and isinstance(args[1], tuple) and args[1][:2] == ("agg", "tuple"):
+                # "rust-call" ABI: the closure body takes the tupled arguments as separate parameters
+                args = [args[0]] + list(args[1][2])
             self.event(path, "enter", name, ce, args, site, blk, dest_ty, ctx)
             results = self.run(target, args=args, path=path, depth=ctx["depth"] + 1, subst=newsub)
             conts = [r_ for r_ in results if r_.kind == "return"]
@@ -1204,7 +1208,14 @@ class Interp:
             if isinstance(a0, tuple) and a0 and a0[0] == "agg" and a0[1] == "array" and len(a0[2]) <= 8:
                 return ("citer", a0[2], 0)
             return NotImplemented
-        if rp == "<core::array::iter::IntoIter<T, N> as core::iter::traits::iterator::Iterator>::next" and is_ptr(a0):
+        if rp in ("core::slice::iter::<impl core::iter::traits::collect::IntoIterator for &'a [T]>::into_iter", "core::slice::<impl [T]>::iter") and is_ptr(a0):
+            # a slice that is (a view of) a literal array of at most 8 elements: same unrolling, yielding references to the elements
+            arr = self.content(path, a0[1])
+            if isinstance(arr, tuple) and arr and arr[0] == "agg" and arr[1] == "array" and len(arr[2]) <= 8:
+                return ("citer", tuple(("ptr", ("T", e)) for e in arr[2]), 0)
+            return NotImplemented
+        if rp in ("<core::array::iter::IntoIter<T, N> as core::iter::traits::iterator::Iterator>::next",
+                  "<core::slice::iter::Iter<'a, T> as core::iter::traits::iterator::Iterator>::next") and is_ptr(a0):
             cur = self.content(path, a0[1])
             if isinstance(cur, tuple) and cur and cur[0] == "citer":
                 _, elems, i = cur
@@ -1303,6 +1314,15 @@ class Interp:
             if args[0] == ("int", 0) and args[1][0] == "int":
                 return ("vec", ("zeros", args[1][1]))
             return ("vec", ("repeat", args[0], args[1]))
+        if p == "alloc::vec::Vec::<T, A>::push" and len(args) == 2 and is_ptr(a0) and ce.get("full", "").startswith("alloc::vec::Vec::<u8>::push"):
+            # one more byte at the end
+            loc = ("V", a0[1])
+            b_ = args[1]
+            data = ("bytes", bytes([b_[1]])) if (isinstance(b_, tuple) and b_[0] == "int" and 0 <= b_[1] < 256) else ("byte", b_)
+            old = self.content(path, loc)
+            self.write(path, loc, concat(old, data))
+            self.event(path, "append", name, ce, args, site, blk, dest_ty, ctx, {"data": data, "target": loc})
+            return ("unit",)
         ext_full = ce.get("full", "")
         is_extend_bytes = (p == "core::iter::traits::collect::Extend::extend" and len(args) == 2
                            and re.match(r"<alloc::vec::Vec<u8> as core::iter::traits::collect::Extend<(&(?:'\w+ )?)?u8>>::extend::<(&(?:'\w+ )?)?(\[u8; \d+\]|\[u8\]|alloc::vec::Vec<u8>)>$", ext_full))
@@ -1769,6 +1789,10 @@ def match_len_minus(t, content):
         a, b = t[2], t[3]
         if isinstance(b, tuple) and b[0] == "int" and isinstance(a, tuple) and a[0] == "len" and same_buffer(a[1], content):
             return b[1]
+        if isinstance(b, tuple) and b[0] == "int":
+            inner = match_len_minus(a, content)        # (len - j) - k
+            if inner is not None:
+                return inner + b[1]
     if isinstance(t, tuple) and t[0] == "field" and t[2] == 0:
         return match_len_minus(t[1], content)
     return None
